@@ -2,6 +2,7 @@
 package c18
 
 import (
+	"errors"
 	"context"
 	"fmt"
 	"net"
@@ -122,14 +123,50 @@ type fakeTracker struct {
 	url string
 	mu  *sync.Mutex
 	log *[]annRec
+	// behaviour: an announce takes delay (virtual time) and then fails or not;
+	// a tracker is Busy while an announce is pending and in the Error state for
+	// a minute after a failure (what makes storrent try the next one of its tier)
+	delay    time.Duration
+	fail     bool
+	busy     bool
+	errUntil time.Time
 }
 
-func (f *fakeTracker) URL() string                         { return f.url }
-func (f *fakeTracker) GetState() (tracker.State, error)    { return tracker.Ready, nil }
+func (f *fakeTracker) URL() string { return f.url }
+func (f *fakeTracker) GetState() (tracker.State, error) {
+	f.mu.Lock()
+	defer f.mu.Unlock()
+	switch {
+	case f.busy:
+		return tracker.Busy, nil
+	case time.Now().Before(f.errUntil):
+		return tracker.Error, errors.New("scripted failure")
+	}
+	return tracker.Ready, nil
+}
 func (f *fakeTracker) Announce(ctx context.Context, hash []byte, myid []byte, want int, size int64, port4, port6 int, proxy string, cb func(netip.AddrPort) bool) error {
 	f.mu.Lock()
 	*f.log = append(*f.log, annRec{port4, port6, proxy})
+	f.busy = true
 	f.mu.Unlock()
+	defer func() {
+		f.mu.Lock()
+		f.busy = false
+		if f.fail {
+			f.errUntil = time.Now().Add(time.Minute)
+		}
+		f.mu.Unlock()
+	}()
+	if f.delay > 0 {
+		select {
+		case <-time.After(f.delay):
+		case <-ctx.Done():
+			return ctx.Err()
+		}
+	}
+	if f.fail {
+		return errors.New("scripted failure")
+	}
 	return nil
 }
 
@@ -165,6 +202,7 @@ func (s step) String() string {
 }
 
 type caseSpec struct {
+	slowA   time.Duration // the first tracker of the first tier answers after this long, with a failure
 	proxied bool
 	init    conf
 	steps   []step
@@ -176,6 +214,7 @@ func genConf(rt *rapid.T) conf {
 
 func genCase(rt *rapid.T) caseSpec {
 	c := caseSpec{proxied: rapid.Bool().Draw(rt, "proxied"), init: genConf(rt)}
+	c.slowA = rapid.SampledFrom([]time.Duration{0, 0, 30 * time.Second, 50 * time.Second}).Draw(rt, "slowFailingTracker")
 	n := rapid.IntRange(1, 15).Draw(rt, "nsteps")
 	for i := 0; i < n; i++ {
 		s := step{Kind: rapid.SampledFrom([]string{"setconf", "setconf", "setconf", "announce", "announce", "want", "want", "peer-out", "peer-out", "peer-in", "peer-in", "sleep", "sleep", "sleep", "sleep",
@@ -225,8 +264,12 @@ func run(c caseSpec) (fail string, labels map[string]bool, hist []string) {
 	var mu sync.Mutex
 	var anns []annRec
 	var dhts []dhtRec
+	var curA *fakeTracker
 	build := func(prox string) (*tor.Torrent, error) {
-		trk := [][]tracker.Tracker{{&fakeTracker{"http://tracker-a.example/announce", &mu, &anns}}, {&fakeTracker{"udp://tracker-b.example:6969", &mu, &anns}}}
+		// two tiers; the first tracker of the first tier may be slow and failing
+		curA = &fakeTracker{url: "http://tracker-a.example/announce", mu: &mu, log: &anns, delay: c.slowA, fail: c.slowA > 0}
+		trk := [][]tracker.Tracker{{curA,
+			&fakeTracker{url: "http://tracker-a2.example/announce", mu: &mu, log: &anns}}, {&fakeTracker{url: "udp://tracker-b.example:6969", mu: &mu, log: &anns}}}
 		ws := []webseed.Webseed{webseed.New("http://"+lnAddr+"/", true)}
 		return tor.New(prox, ih, "", info, 0, trk, ws)
 	}
@@ -395,6 +438,11 @@ func run(c caseSpec) (fail string, labels map[string]bool, hist []string) {
 			}
 			if old.trackers && !K.trackers {
 				labels["trackers on->off"] = true
+				mu.Lock()
+				if curA != nil && curA.busy {
+					labels["trackers switched off while an announce is pending"] = true
+				}
+				mu.Unlock()
 			}
 			if old.webseeds && !K.webseeds {
 				labels["webseeds on->off"] = true
